@@ -1,5 +1,6 @@
 From Coq Require Import List NArith Bool Sorted.
-From V.Ts Require Import Model Proofs Answers.
+From V.gen Require Consts.
+From V.Ts Require Import Model Proofs Answers Report ReportProofs ReportDead ReportDeadProofs.
 Import ListNotations.
 Open Scope N_scope.
 From V.C08 Require Import Properties.
@@ -19,8 +20,23 @@ Check (C08_step_view :
             Some (has_conn q (e_live (env_step e i)))).
 Check (C08_ids_fresh :
   forall tr s,
+  nowrap s tr ->
   StronglySorted N.lt (ret_ids (concat (run s tr))) /\
   Forall (fun i => s_next s <= i) (ret_ids (concat (run s tr)))).
+Check (C08_ids_unique_mod_2_64 :
+  forall tr s,
+  s_next s < ID_MOD -> draws tr <= ID_MOD -> NoDup (ret_ids (concat (run s tr)))).
+Check (C08_id_counter_mod_2_64 :
+  ID_MOD = 2 ^ 64 /\
+  forall s dt e, s_next s < ID_MOD ->
+  exists d, d <= draw_of e /\ s_next (fst (step s dt e)) = (s_next s + d) mod ID_MOD /\
+            (ret_ids (snd (step s dt e)) = [] \/ (ret_ids (snd (step s dt e)) = [s_next s] /\ d = 1))).
+Check (C08_channel_clogged :
+  forall s dt p,
+  s_pend (fst (step s dt (EOpenFull p))) = s_pend s /\
+  ret_ids (snd (step s dt (EOpenFull p))) = [] /\
+  (forall c id, ~ In (OCmd c id) (snd (step s dt (EOpenFull p)))) /\
+  (exists r, In (ORet r 0) (snd (step s dt (EOpenFull p))) /\ (r = 1 \/ r = 2 \/ r = 3))).
 Check (C08_primary_only :
   forall e s dt i c id,
   conn_inv e (s_ctxs s) (s_pend s) -> In (OCmd c id) (snd (step s dt i)) ->
@@ -28,10 +44,11 @@ Check (C08_primary_only :
             In (ORet 0 id) (snd (step s dt i))).
 Check (C08_answered_at_most_once :
   forall ka T n0 tr,
+  nowrap (init ka T n0) tr ->
   NoDup (ans_ids (concat (run (init ka T n0) tr))) /\
   forall id, In id (ans_ids (concat (run (init ka T n0) tr))) -> n0 <= id).
 Check (C08_answer_consumes :
-  forall s dt e, pend_inv s -> ans_ok s (fst (step s dt e)) (snd (step s dt e))).
+  forall s dt e, pend_inv s -> nowrap1 s e -> ans_ok s (fst (step s dt e)) (snd (step s dt e))).
 Check (C08_open_in_flight :
   forall s dt e c id,
   pend_inv s -> In (OCmd c id) (snd (step s dt e)) ->
@@ -43,17 +60,73 @@ Check (C08_in_flight_until_answered_or_closed :
   exists p, e = EClosed p (snd k)).
 Check (C08_open_resolution :
   forall tr s c id,
-  pend_inv s -> In (OCmd c id) (concat (run s tr)) ->
+  pend_inv s -> nowrap s tr -> In (OCmd c id) (concat (run s tr)) ->
   (exists p, pfind id (s_pend (final s tr)) = Some (p, c)) \/
   In id (ans_ids (concat (run s tr))) \/
   exists dt p, In (dt, EClosed p c) tr).
 Check (C08_open_answered :
   forall tr ka T n0 c id,
+  nowrap (init ka T n0) tr ->
   In (OCmd c id) (concat (run (init ka T n0) tr)) ->
   pfind id (s_pend (final (init ka T n0) tr)) = None ->
   (count_occ N.eq_dec (ans_ids (concat (run (init ka T n0) tr))) id <= 1)%nat /\
   (count_occ N.eq_dec (ans_ids (concat (run (init ka T n0) tr))) id = 1%nat \/
    exists dt p, In (dt, EClosed p c) tr)).
+Check (C08_report_no_loss :
+  forall l nproto cap p ch,
+  nth_error (r_ch (rfinal (rinit nproto cap) l)) p = Some ch ->
+  got_all p l (rrun (rinit nproto cap) l) ++ rq ch ++ map snd (rw ch) =
+  sent_all p l (rrun (rinit nproto cap) l)).
+Check (C08_report_channel_invariant :
+  forall l nproto cap, rinv (rfinal (rinit nproto cap) l)).
+Check (C08_report_delivered :
+  forall rl nproto cap p,
+  (1 <= cap)%nat -> (p < nproto)%nat ->
+  let n := backlog_p (rfinal (rinit nproto cap) rl) p in
+  let rl' := rl ++ repeat (RDrain (N.of_nat p) 1) n in
+  got_all p rl' (rrun (rinit nproto cap) rl') = sent_all p rl (rrun (rinit nproto cap) rl)).
+Check (C08_report_default_capacity :
+  (1 <= N.to_nat V.gen.Consts.DEFAULT_CHANNEL_SIZE)%nat).
+Check (C08_answer_event_resolves :
+  forall tr1 dt a tr2 ka T n0 c id,
+  nowrap (init ka T n0) (tr1 ++ (dt, a) :: tr2) ->
+  In (OCmd c id) (concat (run (init ka T n0) tr1)) ->
+  (exists m, a = ESubOut id m) \/ a = ESubFail id ->
+  pfind id (s_pend (final (init ka T n0) (tr1 ++ (dt, a) :: tr2))) = None).
+Check (C08_open_answered_when_delivered :
+  forall tr1 dt a tr2 ka T n0 c id,
+  nowrap (init ka T n0) (tr1 ++ (dt, a) :: tr2) ->
+  In (OCmd c id) (concat (run (init ka T n0) tr1)) ->
+  (exists m, a = ESubOut id m) \/ a = ESubFail id ->
+  let tr := tr1 ++ (dt, a) :: tr2 in
+  (count_occ N.eq_dec (ans_ids (concat (run (init ka T n0) tr))) id <= 1)%nat /\
+  (count_occ N.eq_dec (ans_ids (concat (run (init ka T n0) tr))) id = 1%nat \/
+   exists dt' p, In (dt', EClosed p c) tr)).
+Check (C08_report_layer_conservative :
+  forall l s bs,
+  all_base l = Some bs ->
+  dfinal (mkD s [] []) l = mkD (rfinal s bs) [] [] /\ drun (mkD s [] []) l = map lift (rrun s bs)).
+Check (C08_established_meets_dead_protocol :
+  forall d c mask,
+  d_dead d <> [] -> busy (d_s d) c = false -> existsb (N.eqb c) (d_gone d) = false ->
+  let d' := fst (dstep d (DEst c mask)) in
+  do_code (snd (dstep d (DEst c mask))) = 3 /\
+  d_dead d' = d_dead d /\ d_gone d' = c :: d_gone d /\
+  (forall p ch', nth_error (r_ch (d_s d')) p = Some ch' ->
+     exists ch, nth_error (r_ch (d_s d)) p = Some ch /\ rw ch' = rw ch /\ rdel ch' = rdel ch /\
+       (ch' = ch \/
+        (rq ch' = rq ch ++ [IEst c] /\ racc ch' = racc ch ++ [IEst c] /\
+         N.testbit mask (N.of_nat p) = true /\ is_dead d (N.of_nat p) = false /\
+         rw ch = [] /\ (length (rq ch) < r_cap (d_s d))%nat)))).
+Check (C08_no_closed_without_report :
+  forall d o c p ch ch',
+  nth_error (r_ch (d_s d)) p = Some ch -> nth_error (r_ch (d_s (fst (dstep d o)))) p = Some ch' ->
+  (forall b, o <> DBase (RClosed b)) ->
+  ~ In (IClosed c) (racc ch) -> ~ In (IClosed c) (racc ch')).
+Check (C08_dead_protocol_leak_witness :
+  let l := [DKill 0; DEst 7 2; DBase (RClosed 7); DBase (RDrain 1 9)] in
+  map do_code (drun (dinit 2 2) l) = [0; 3; 2; 0] /\
+  map do_got (drun (dinit 2 2) l) = [[]; []; []; [IEst 7]]).
 Check (C08_needs_two_per_peer :
   exists tr q,
   feasible 3 env0 (init true 1000 0) tr = true /\
